@@ -283,7 +283,21 @@ def c05(cx):
                      "start succeeds and equals the specification's load of those files, registration still possible / refused as recorded")
 
 
-PLANS = {"C01": c01, "C02": c02, "C03": c03, "C04": c04, "C05": c05, "C06": c06, "C07": c07, "C08": c08, "C09": c09, "C10": c10, "C11": c11, "C12": c12, "C16": c16, "C17": c17, "C18": c18, "C19": c19, "C20": c20}
+def c15(cx):
+    cx.assumptions += ["the harness converts field values to little-endian byte sequences; the little-endian rule itself is checked by TLC on small numbers (Num events)",
+                       "determinism of signing and sensitivity of verification to every bit are properties of Keccak/secp256k1: they are the abstraction assumption of "
+                       "all other checks and are only sampled here (all single-bit flips of message, signature and key of several signed messages)",
+                       "sync replies are signed without a type prefix (first signed bytes = device public key); an observation, outside the listed structures",
+                       "for decoders the comparison of decoded fields with the input bytes uses the harness's reference encoders"]
+    cx.mc("MC_Wire", "MC_Wire.cfg", {}, workers=2,
+          note="constant-level: no signing prefix is a prefix of another; fixed record lengths 80/148/96; decode(encode) = id and wrong lengths refused over a small byte alphabet")
+    r = cx.drv_ok("wire")
+    cx.validate("Trace_Wire", "Trace_Wire.cfg", r["trace"],
+                what="real Serialize / SigningBytes / Deserialize of every structure on boundary and random values; streams of 0..3 weekly records; "
+                     "server maps with 0..4 entries, locations up to 65535; JSON transport; signing samples")
+
+
+PLANS = {"C01": c01, "C02": c02, "C03": c03, "C04": c04, "C05": c05, "C06": c06, "C07": c07, "C08": c08, "C09": c09, "C10": c10, "C11": c11, "C12": c12, "C15": c15, "C16": c16, "C17": c17, "C18": c18, "C19": c19, "C20": c20}
 
 
 def replay(cx, path):
